@@ -879,7 +879,7 @@ func init() {
 		ID: "C08",
 		Cases: func(tier string) int {
 			if tier == "thorough" {
-				return 100000
+				return 400000
 			}
 			return 16000
 		},
